@@ -221,6 +221,15 @@ def global_state_snapshot():
             (f[0], getattr(f[1], 'pattern', None), f[2].__name__,
              getattr(f[3], 'pattern', None), f[4]) for f in warnings.filters],
     }
+    # process-wide settings of the numeric back ends
+    snap['thread_pools'] = thread_limits()
+    try:
+        import scipy.special
+        snap['scipy_special_err'] = dict(scipy.special.geterr())
+    except Exception:   # noqa
+        pass
+    snap['errcall'] = repr(np.geterrcall())
+    snap['recursionlimit'] = sys.getrecursionlimit()
     try:
         import sklearn
         snap['sklearn_config'] = {k: repr(v) for k, v in
@@ -228,3 +237,34 @@ def global_state_snapshot():
     except Exception:   # noqa
         pass
     return snap
+
+
+# --------------------------------------------------------------------------
+# thread-pool seam (BLAS / OpenMP pools of the process)
+# --------------------------------------------------------------------------
+
+_TP = None
+
+
+def _threadpools():
+    """Controllers of the native thread pools loaded in this process (created
+    once, after every pb_bss module and its dependencies were imported)."""
+    global _TP
+    if _TP is None:
+        try:
+            from threadpoolctl import ThreadpoolController
+            _TP = list(ThreadpoolController().lib_controllers)
+        except Exception:   # noqa
+            _TP = []
+    return _TP
+
+
+def thread_limits():
+    return [(c.user_api, c.internal_api, int(c.get_num_threads()))
+            for c in _threadpools()]
+
+
+def set_blas_threads(n):
+    for c in _threadpools():
+        if c.user_api == 'blas':
+            c.set_num_threads(int(n))
